@@ -1,11 +1,12 @@
 import HappyProofs.C12.PxFut
 import HappyProofs.C12.PxPromise
+import HappyProofs.C12.PxCurExact
 import HappyProofs.C12.LockProof
 import HappyProofs.C12.MPWitness
 import HappyProofs.C12.MPCommit
 import HappyProofs.C12.MPLeader
 import HappyProofs.C12.MPDeposed
-import HappyProofs.C12.MPSetup
+import HappyProofs.C12.MPJudge
 import HappyProofs.C12.ElWitness
 import HappyProofs.C12.ElStale
 import HappyProofs.C12.ElStaticRun
@@ -158,6 +159,16 @@ theorem retry_decides_none :
 
 /-- under the repaired rule the acks for the abandoned ballot are ignored -/
 example : (runActs (init 5 (majority 5) (majority 5)) witnessNone).decided 0 = none := by decide
+
+/-- both witnesses lie in the fragment where `stepCur` mirrors the pinned tree exactly (`PxCurExact.lean`): the late
+    promise of `witnessAgreement` does overwrite the undelivered `Accept((2,P))` to Q and C (situation A), but neither
+    is ever delivered -/
+theorem witnessAgreement_exact : curExact (init 5 (majority 5) (majority 5)) {} witnessAgreement = true := by decide
+theorem witnessNone_exact : curExact (init 5 (majority 5) (majority 5)) {} witnessNone = true := by decide
+
+/-- a schedule outside the fragment: after the restart, the overwritten `Accept((2,P))` to C is delivered -/
+example : curExact (init 5 (majority 5) (majority 5)) {}
+    (witnessAgreement.take 16 ++ [.recvAccept 10 4]) = false := by decide
 
 /-! ## Flexible quorums: phase 1 uses `q1`, a decision needs `q2` distinct acceptors -/
 
